@@ -190,6 +190,24 @@ theorem mem_write (i : Sv.Memory.In) (m : BitVec 19 → Word) (hr : i.i_rst = 0#
     | rfl
     | (dsimp only; split <;> split <;> first | rfl | (exfalso; bv_decide))
 
+/-- The memory's reset arm: nothing is written while `i_rst` is high
+    (`if (!i_rst && i_d_valid && i_d_we)`; false of the tree before repo commit d715191). -/
+theorem mem_reset (i : Sv.Memory.In) (m : BitVec 19 → Word) (hr : i.i_rst = 1#1) :
+    (Sv.Memory.ff ⟨⟩ i ⟨m⟩).memory_q = m := by
+  unfold Sv.Memory.ff Sv.Memory.comb
+  dsimp only
+  split
+  · exfalso; bv_decide
+  · rfl
+
+theorem reset_memory (r : RtlSt) :
+    (resetEdge r).mem =
+      (Sv.Memory.ff ⟨⟩
+        { i_rst := 1#1, i_clk := 1#1, i_f_valid := (Sv.Hex.comb ⟨⟩ (ev 1#1) r).req_f_valid,
+          i_f_addr := (Sv.Hex.comb ⟨⟩ (ev 1#1) r).req_f_addr, i_d_valid := (Sv.Hex.comb ⟨⟩ (ev 1#1) r).req_d_valid,
+          i_d_we := (Sv.Hex.comb ⟨⟩ (ev 1#1) r).req_d_we, i_d_addr := (Sv.Hex.comb ⟨⟩ (ev 1#1) r).req_d_addr,
+          i_d_data := (Sv.Hex.comb ⟨⟩ (ev 1#1) r).req_d_data } ⟨r.mem⟩).memory_q := rfl
+
 theorem fetch_eq (r : RtlSt) :
     fetchByte r = byteOfWord (r.mem (r.pc.extractLsb' 2 19)) (r.pc.extractLsb' 0 2).toNat := by
   rw [fetch_memory, mem_fetch, byteSel_eq]
